@@ -715,7 +715,7 @@ func serve(req wireReq, opt serveOpt) (out map[string]interface{}) {
 	}
 	w := httptest.NewRecorder()
 	h.ServeHTTP(w, toHTTP(req))
-	return obsOf(w.Code, w.Header(), w.Body.String())
+	return obsOf(w.Code, w.Result().Header, w.Body.String())
 }
 `
 
@@ -796,7 +796,7 @@ func serve(req wireReq, opt serveOpt) (out map[string]interface{}) {
 	}
 	w := httptest.NewRecorder()
 	e.ServeHTTP(w, toHTTP(req))
-	return obsOf(w.Code, w.Header(), w.Body.String())
+	return obsOf(w.Code, w.Result().Header, w.Body.String())
 }
 ` + extra
 	}
@@ -859,7 +859,7 @@ func serve(req wireReq, opt serveOpt) (out map[string]interface{}) {
 	}
 	w := httptest.NewRecorder()
 	r.ServeHTTP(w, toHTTP(req))
-	return obsOf(w.Code, w.Header(), w.Body.String())
+	return obsOf(w.Code, w.Result().Header, w.Body.String())
 }
 ` + extra
 	}
@@ -978,7 +978,7 @@ func serve(req wireReq, opt serveOpt) (out map[string]interface{}) {
 	}
 	w := httptest.NewRecorder()
 	app.ServeHTTP(w, toHTTP(req))
-	return obsOf(w.Code, w.Header(), w.Body.String())
+	return obsOf(w.Code, w.Result().Header, w.Body.String())
 }
 ` + extra
 	}
